@@ -491,6 +491,19 @@ func init() {
 				g.mutate(cw, ms, g.chance(0.6), thorough && i%50 == 0)
 			}
 		}
+		// well-formed frames at the upper end of the 16-bit length field, whole and in pieces
+		for _, dl := range []int{65510, 65513, 65514, 65517, 65518, 65535} {
+			for _, crc := range []bool{false, true} {
+				v := dl - 7
+				ms := []rscp.Message{{Tag: rscp.WB_EXTERN_DATA, DataType: rscp.ByteArray, Value: g.bytes(v)}}
+				p := plainFrame(ms, crc, g.time())
+				if p == nil {
+					continue
+				}
+				anyCase(cw, p, fmt.Sprintf("N giant-frame data=%d crc=%v", dl, crc))
+				chunkCase(cw, g, p, fmt.Sprintf("N giant-frame data=%d crc=%v", dl, crc))
+			}
+		}
 		if thorough {
 			// every control word on a fixed small frame, with and without matching CRC
 			ms := []rscp.Message{{Tag: rscp.BAT_INDEX, DataType: rscp.UInt16, Value: uint16(7)}}
@@ -534,7 +547,7 @@ func valCase(cw *caseWriter, ms []rscp.Message, label string) {
 	if impl == "panic" {
 		prop = "FAIL C05 validateRequests panics"
 	}
-	cw.add("val "+msgsString(ms), impl, nt(!strings.HasPrefix(label, "valid items=1 ")) + " " + label, prop)
+	cw.add("val "+msgsString(ms), impl, nt(!strings.HasPrefix(label, "valid items=1 "))+" "+label, prop)
 }
 
 func (g *gen) requestList() []rscp.Message {
